@@ -1,6 +1,11 @@
 from props import C01, C02, C05, C07, C09, C13, C17, C03
 from props import l2_queries as L
 from props.common import *
+from vf import Query
+from props import units_batch as UB
+from props import C08 as _C08
+LISTING = Query('main_listing_line', 'harness', UB.unit_listing_line, 'h_listing_line', defines=['VERIF_ITEM_CAP=8'], unwind=12, timeout=600, object_bits=10,
+                functions=['btcdeb.cpp: main() (fragment: one line of the script listing, body of the `while (script->GetOp(...))` loop)'], bounded='pushes of at most 520 bytes (by length), opcode names of at most 40 characters')
 import re
 # every query below is run with CBMC's memory-safety and arithmetic checks; what this property claims is ONLY those
 # code-derived obligations (bounds, pointer validity, division by zero, signed overflow, undefined shifts, container preconditions,
@@ -11,7 +16,7 @@ QUERIES = (pick(C01, r'(step_push|step_unexecuted|step_3dup_6f|step_tuck_7d|step
            + pick(C17, r'(ext_substr|ext_left|ext_right|ext_cat|ext_div_shape|ext_mod_shape|ext_mul_shape|ext_lshift|ext_rshift|ext_2div)$')
            + pick(C02, r'(sig_checksig_pre|sig_checksig_tapscript|sig_multisig_1of0|sig_multisig_counts)$')
            + pick(C05, r'tap_') + pick(C07, r'(enc_data|tokenise_n7)') + pick(C09, r'(svf_table|svf_parse1_12|svf_reject_15_k1|svf_long_128|svf_long_150|svf_loop_step)$') + pick(C13, r'cs_') + pick(C03, r'(parse_input|cfg_taproot)$')
-           + [L.REWIND_ROUNDTRIP, L.REWIND_REFUSED, L.END_OF_SCRIPT, L.CTOR, L.CONTINUE, L.INSTANCE_STEP, L.EVAL, L.COMMITMENT, L.SETUP])
+           + [L.REWIND_ROUNDTRIP, L.REWIND_REFUSED, L.END_OF_SCRIPT, L.CTOR, L.CONTINUE, L.INSTANCE_STEP, L.EVAL, L.COMMITMENT, L.SETUP, LISTING, _C08.STDIN, _C08.STDIN_LONG, _C08.BATCH])
 _seen = set(); QUERIES = [q for q in QUERIES if not (q.name in _seen or _seen.add(q.name))]
 META = {'level': 'proof', 'trusted_base': TRUSTED,
  'assumptions': ASSUME_COMMON + [
